@@ -181,7 +181,7 @@ def _rv(x):
     if isinstance(x, float):
         if x != x or x in (float('inf'), float('-inf')):
             raise NonFinite('non-finite constant %r' % x)
-        r = repr(x)
+        r = repr(float(x))              # numpy scalars are floats whose repr is 'np.float64(...)'
         if 'e' in r or 'E' in r:
             from decimal import Decimal
             return z3.RealVal(str(Fraction(Decimal(r))))      # z3 does not read exponent notation
@@ -220,6 +220,12 @@ class SB:
 
     def __bool__(s):
         return Ctx.cur.branch(s.e)
+
+    def __int__(s):
+        return int(bool(s))
+
+    def __index__(s):
+        return int(bool(s))
 
     def _o(s, o):
         return o.e if isinstance(o, SB) else z3.BoolVal(bool(o))
